@@ -3,10 +3,13 @@ package props
 import (
 	"bytes"
 	"fmt"
+	"github.com/dave/dst"
 	"github.com/dave/dst/decorator"
 	"github.com/dave/dst/decorator/resolver/goast"
 	"github.com/dave/dst/decorator/resolver/guess"
+	"go/ast"
 	"go/format"
+	"go/parser"
 	"go/token"
 	"regexp"
 	"sort"
@@ -483,6 +486,56 @@ func runC03(c *fw.Ctx) {
 				}
 				c03CheckVia(c, fmt.Sprintf("tokgap-imports:%s/%d/%d", k, ti, vi), "token-gap-comment+import-management", in, rtImportsManaged)
 			}
+		}
+	}
+	// files decorated as members of a package (what ParseDir does): tiny files without declarations
+	// (doc.go style, imports only, a bare package clause) next to ordinary files, and every construct
+	// snippet next to tiny files; each file is printed and judged like a file decorated alone
+	tiny := []string{
+		"// Copyright notice.\n\n// Package p has documentation only.\npackage p // trailing\n\n// a comment that ends the file\n",
+		"package p\n",
+		"/* block header */\n\npackage p\n\nimport (\n\t\"fmt\" // for printing\n\t_ \"os\"\n)\n\n// the imports are all there is\n",
+		"//go:build ignore\n\npackage p /* inline */\n// directly below the clause",
+	}
+	inPackage := func(companions []string) func([]byte) ([]byte, error) {
+		return func(in []byte) ([]byte, error) {
+			fset := token.NewFileSet()
+			af, err := parser.ParseFile(fset, "in.go", in, parser.ParseComments)
+			if err != nil {
+				return nil, err
+			}
+			files := map[string]*ast.File{"in.go": af}
+			for k, cs := range companions {
+				if cf, err := parser.ParseFile(fset, fmt.Sprintf("companion%d.go", k), cs, parser.ParseComments); err == nil {
+					files[fmt.Sprintf("companion%d.go", k)] = cf
+				}
+			}
+			dn, err := decorator.NewDecorator(fset).DecorateNode(&ast.Package{Name: af.Name.Name, Files: files})
+			if err != nil {
+				return nil, err
+			}
+			dp, ok := dn.(*dst.Package)
+			if !ok || dp.Files["in.go"] == nil {
+				return nil, fmt.Errorf("the decorated package has no file in.go")
+			}
+			var buf bytes.Buffer
+			if err := decorator.Fprint(&buf, dp.Files["in.go"]); err != nil {
+				return nil, err
+			}
+			return buf.Bytes(), nil
+		}
+	}
+	pi := 0
+	for ti, t := range tiny {
+		for zi, k := range zkeys {
+			i := pi
+			pi++
+			if !c.Mine(i) || (c.Quick() && (ti+zi)%4 != 0) {
+				continue
+			}
+			// the tiny file as a member of a package with a construct snippet, and the other way round
+			c03CheckVia(c, fmt.Sprintf("in-package:tiny%d+%s", ti, k), "member-of-a-package", []byte(t), inPackage([]string{zoo[k], tiny[(ti+1)%len(tiny)]}))
+			c03CheckVia(c, fmt.Sprintf("in-package:%s+tiny%d", k, ti), "member-of-a-package", []byte(zoo[k]), inPackage([]string{t}))
 		}
 	}
 	// the comment that opens a file: one or two comment lines in canonical and non-canonical form
